@@ -26,6 +26,7 @@ class Spec:
         for x in list(d.get('dv', [])) + list(d.get('metrics', [])):
             self.nodes.append(x['name'])
             self.derive.setdefault(x['host'], []).append(x['name'])
+        self.constraints = [(k, list(c)) for k, c in d.get('constraints', [])]
         self.conn = list(d.get('conn', []))
         for cc in self.conn:
             for side in ('src', 'tgt'):
@@ -133,6 +134,8 @@ class Spec:
                 return  # closures only grow: no completion can remove the pair
             if not un:
                 a = {c: assign[c] for c in active}
+                if not self.constraints_ok(a):
+                    return
                 out[(frozenset(nodes), tuple(sorted(a.items())))] = a
                 count[0] += 1
                 if count[0] > limit:
@@ -147,6 +150,22 @@ class Spec:
 
         rec(dict(partial or {}))
         return [(k[0], v) for k, v in sorted(out.items(), key=lambda kv: (sorted(kv[0][0]), kv[0][1]))]
+
+    def constraints_ok(self, a):
+        """Choice constraints over the choices that are active together (documented index relations)."""
+        for kind, cids in self.constraints:
+            idx = [self.sel[c][1].index(a[c]) for c in cids if c in a]
+            if len(idx) < 2:
+                continue
+            if kind == 'linked' and len(set(idx)) != 1:
+                return False
+            if kind == 'permutation' and len(set(idx)) != len(idx):
+                return False
+            if kind == 'unordered' and any(x > y for x, y in zip(idx, idx[1:])):
+                return False
+            if kind == 'unordered_norepl' and any(x >= y for x, y in zip(idx, idx[1:])):
+                return False
+        return True
 
     def wiring(self, assign):
         return sorted((self.sel[c][0], o) for c, o in assign.items())
